@@ -1,13 +1,31 @@
 (** * A concrete instance of [spelling_irrelevant_ok] (C08): two spellings of one tree on the
-    document [<r a="1"><b>t<e/></b><c><f/></c><d/></r>] (the table of Proofs/XPathExamples.v,
-    dumped from the real code). *)
+    document [<r><a k="1"><b/><a/></a></r>] (the table below, dumped from the real code by
+    tools/xpath/dump2coq.py), and the witnesses of what the full statement would claim in excess. *)
 From Coq Require Import List NArith Bool.
 From XmlRs Require Import Base.CPred Spec.XPathSyntax.
 From XmlRs Require Import Model.XPathAst Model.XDoc Model.XPathEval.
-From XmlRs Require Import Proofs.XPathParseMain Proofs.XPathCanon Proofs.XPathDocCheck Proofs.XPathExamples Proofs.XPathWitness
+From XmlRs Require Import Proofs.XPathParseMain Proofs.XPathCanon Proofs.XPathDocCheck
   Proofs.XPathAbsInv Proofs.XPathSpellingLight Proofs.XPathSpellingMain.
 Import ListNotations.
 Local Open Scope N_scope.
+
+(** dumped from the real code by tools/xpath/dump2coq.py *)
+(* <r><a k="1"><b/><a/></a></r> *)
+Definition c08_doc : xdoc :=
+  [ mk_xnode KDocument 1 1 None [1] [] (Some []) XNameNone DataComputed;
+    mk_xnode KElement 2 2 (Some 0) [3] [] (Some [2]) (XName [114] (Some [120;109;108;110;115]) (None)) DataComputed;
+    mk_xnode KNamespace 0 0 None [] [] (Some []) (XName [120;109;108] (None) (None)) (DataStr [104;116;116;112;58;47;47;119;119;119;46;119;51;46;111;114;103;47;88;77;76;47;49;57;57;56;47;110;97;109;101;115;112;97;99;101]);
+    mk_xnode KElement 3 3 (Some 1) [6;8] [5] (Some [4]) (XName [97] (Some [120;109;108;110;115]) (None)) DataComputed;
+    mk_xnode KNamespace 0 0 None [] [] (Some []) (XName [120;109;108] (None) (None)) (DataStr [104;116;116;112;58;47;47;119;119;119;46;119;51;46;111;114;103;47;88;77;76;47;49;57;57;56;47;110;97;109;101;115;112;97;99;101]);
+    mk_xnode KAttribute 4 4 (Some 3) [] [] (Some []) (XName [107] (Some [120;109;108;110;115]) (None)) (DataStr [49]);
+    mk_xnode KElement 6 6 (Some 3) [] [] (Some [7]) (XName [98] (Some [120;109;108;110;115]) (None)) DataComputed;
+    mk_xnode KNamespace 0 0 None [] [] (Some []) (XName [120;109;108] (None) (None)) (DataStr [104;116;116;112;58;47;47;119;119;119;46;119;51;46;111;114;103;47;88;77;76;47;49;57;57;56;47;110;97;109;101;115;112;97;99;101]);
+    mk_xnode KElement 7 7 (Some 3) [] [] (Some [9]) (XName [97] (Some [120;109;108;110;115]) (None)) DataComputed;
+    mk_xnode KNamespace 0 0 None [] [] (Some []) (XName [120;109;108] (None) (None)) (DataStr [104;116;116;112;58;47;47;119;119;119;46;119;51;46;111;114;103;47;88;77;76;47;49;57;57;56;47;110;97;109;101;115;112;97;99;101]) ].
+
+Lemma c08_doc_inv : DocInv c08_doc.
+Proof. apply XPathDocCheck.doc_inv_b_sound. vm_compute. reflexivity. Qed.
+
 
 Definition ex_b : ntest := TName (QN None [98]).
 
@@ -36,44 +54,27 @@ Proof. vm_compute. discriminate. Qed.
 Example ex_hypotheses :
   ok_spelling ex_short ex_sp1 /\ ok_spelling ex_short ex_sp2 /\
   no_fname_case (surface ex_sp1) = true /\ no_fname_case (surface ex_sp2) = true /\
-  DocInv ex_doc /\ ns_lookup [] None = None /\ xnons ex_short = true.
+  DocInv c08_doc /\ ns_lookup [] None = None /\ xnons ex_short = true.
 Proof.
   split; [repeat split; vm_compute; reflexivity|]. split; [repeat split; vm_compute; reflexivity|].
-  split; [vm_compute; reflexivity|]. split; [vm_compute; reflexivity|]. split; [exact ex_doc_inv|]. split; vm_compute; reflexivity.
+  split; [vm_compute; reflexivity|]. split; [vm_compute; reflexivity|]. split; [exact c08_doc_inv|]. split; vm_compute; reflexivity.
 Qed.
 
 Example ex_same_value : forall v,
-  query_model ex_doc [] (spell ex_short ex_sp1) = QValue v <-> query_model ex_doc [] (spell ex_short ex_sp2) = QValue v.
+  query_model c08_doc [] (spell ex_short ex_sp1) = QValue v <-> query_model c08_doc [] (spell ex_short ex_sp2) = QValue v.
 Proof.
   destruct ex_hypotheses as (H1 & H2 & N1 & N2 & HD & HN & HX).
-  exact (spelling_irrelevant_ok_proof ex_doc [] ex_short ex_sp1 ex_sp2 H1 H2 N1 N2 HD HN HX).
+  exact (spelling_irrelevant_ok_proof c08_doc [] ex_short ex_sp1 ex_sp2 H1 H2 N1 N2 HD HN HX).
 Qed.
 
-(** the value, computed: the element [r] (row 1), once *)
-Example ex_value : query_model ex_doc [] (spell ex_short ex_sp1) = QValue (XNodes [1]).
+(** the value, computed: the outer element [a] (row 3), once *)
+Example ex_value : query_model c08_doc [] (spell ex_short ex_sp1) = QValue (XNodes [3]).
 Proof. vm_compute. reflexivity. Qed.
 
-Example ex_value2 : query_model ex_doc [] (spell ex_short ex_sp2) = QValue (XNodes [1]).
+Example ex_value2 : query_model c08_doc [] (spell ex_short ex_sp2) = QValue (XNodes [3]).
 Proof. apply ex_same_value. exact ex_value. Qed.
 
 (** ** what the full statement would say and the code does not do *)
-
-(** dumped from the real code by tools/xpath/dump2coq.py *)
-(* <r><a k="1"><b/><a/></a></r> *)
-Definition c08_doc : xdoc :=
-  [ mk_xnode KDocument 1 1 None [1] [] (Some []) XNameNone DataComputed;
-    mk_xnode KElement 2 2 (Some 0) [3] [] (Some [2]) (XName [114] (Some [120;109;108;110;115]) (None)) DataComputed;
-    mk_xnode KNamespace 0 0 None [] [] (Some []) (XName [120;109;108] (None) (None)) (DataStr [104;116;116;112;58;47;47;119;119;119;46;119;51;46;111;114;103;47;88;77;76;47;49;57;57;56;47;110;97;109;101;115;112;97;99;101]);
-    mk_xnode KElement 3 3 (Some 1) [6;8] [5] (Some [4]) (XName [97] (Some [120;109;108;110;115]) (None)) DataComputed;
-    mk_xnode KNamespace 0 0 None [] [] (Some []) (XName [120;109;108] (None) (None)) (DataStr [104;116;116;112;58;47;47;119;119;119;46;119;51;46;111;114;103;47;88;77;76;47;49;57;57;56;47;110;97;109;101;115;112;97;99;101]);
-    mk_xnode KAttribute 4 4 (Some 3) [] [] (Some []) (XName [107] (Some [120;109;108;110;115]) (None)) (DataStr [49]);
-    mk_xnode KElement 6 6 (Some 3) [] [] (Some [7]) (XName [98] (Some [120;109;108;110;115]) (None)) DataComputed;
-    mk_xnode KNamespace 0 0 None [] [] (Some []) (XName [120;109;108] (None) (None)) (DataStr [104;116;116;112;58;47;47;119;119;119;46;119;51;46;111;114;103;47;88;77;76;47;49;57;57;56;47;110;97;109;101;115;112;97;99;101]);
-    mk_xnode KElement 7 7 (Some 3) [] [] (Some [9]) (XName [97] (Some [120;109;108;110;115]) (None)) DataComputed;
-    mk_xnode KNamespace 0 0 None [] [] (Some []) (XName [120;109;108] (None) (None)) (DataStr [104;116;116;112;58;47;47;119;119;119;46;119;51;46;111;114;103;47;88;77;76;47;49;57;57;56;47;110;97;109;101;115;112;97;99;101]) ].
-
-Lemma c08_doc_inv : DocInv c08_doc.
-Proof. apply XPathDocCheck.doc_inv_b_sound. vm_compute. reflexivity. Qed.
 
 Definition nm (c : N) : ntest := TName (QN None [c]).
 Definition call0 (f : str) : xexpr := XCall (QN None f) [].
@@ -162,11 +163,11 @@ Proof.
   repeat split; vm_compute; reflexivity.
 Qed.
 
-Example ex_light_same : query_model ex_doc [] (spell ex_l1 (sp_of ex_l1)) = query_model ex_doc [] (spell ex_l1 (sp_of ex_l2)).
+Example ex_light_same : query_model c08_doc [] (spell ex_l1 (sp_of ex_l1)) = query_model c08_doc [] (spell ex_l1 (sp_of ex_l2)).
 Proof.
   destruct ex_light_hypotheses as (H1 & H2 & N1 & N2 & E & _).
-  exact (spelling_irrelevant_light_proof ex_doc [] ex_l1 (sp_of ex_l1) (sp_of ex_l2) H1 H2 N1 N2 E eq_refl).
+  exact (spelling_irrelevant_light_proof c08_doc [] ex_l1 (sp_of ex_l1) (sp_of ex_l2) H1 H2 N1 N2 E eq_refl).
 Qed.
 
-Example ex_light_value : query_model ex_doc [] (spell ex_l1 (sp_of ex_l1)) = QError (XErrNotFoundVariable [118]).
+Example ex_light_value : query_model c08_doc [] (spell ex_l1 (sp_of ex_l1)) = QError (XErrNotFoundVariable [118]).
 Proof. vm_compute. reflexivity. Qed.
